@@ -2,6 +2,14 @@ package main
 
 // Property drivers: which engines and which contracts serve which property.
 
+import (
+	"context"
+	"os/exec"
+	"path/filepath"
+	"strings"
+	"time"
+)
+
 var propBuilders = map[string]func(c *CheckCtx){}
 
 func init() {
@@ -139,6 +147,7 @@ func buildC02(c *CheckCtx) {
 	c.checkPrinter(kinds) // P-order: the layout the conservation obligations use is what every path of the printer emits
 	c.addFunctionUnits(func(con *Contract) bool { return hasProp(con, "C02") })
 	c.Explain = "Proved per run: (G-conserve) every action of both grammars leaves in $$ a value whose printed token sequence equals the concatenation of the token sequences of $1..$n, for every shape the non-terminal contracts allow; (P-order) every printer method emits each slot once in the order the conservation obligations use, helpers pinned; (R-end) rule 1 stores the end token. Not covered by this check: L-tile (the lexer's tokens tile the source: C04), the LR driver (trusted), and the precondition of printer.write at printToken's call sites (no '<?php ' / space insertion), which is a fact about adjacent token pairs."
+	c.checkListLaws()
 	c.assume("W-exact: printer.write appends exactly its argument unless (state is HTML and the chunk is not an open tag) or (last byte and first byte are both identifier bytes); that no two adjacent printed tokens of a parsed tree trigger these is NOT proved (two known counter-examples: a shebang line, '1and')")
 }
 
@@ -245,4 +254,25 @@ func buildC14(c *CheckCtx) {
 	c.checkResolverTable(kinds)
 	c.addFunctionUnits(func(con *Contract) bool { return hasProp(con, "C14") })
 	c.addFrames("C14")
+}
+
+// checkListLaws: the three laws about separated lists that E-GRAM's yield comparison relies on (DESIGN Appendix B) are
+// stated and proved in lean/Interleave.lean. In the thorough tier the file is re-checked with the installed Lean; in the
+// quick tier (and when Lean is not available) they are listed as an assumption with a pointer to the file.
+func (c *CheckCtx) checkListLaws() {
+	file := filepath.Join(verifDir, "lean", "Interleave.lean")
+	if c.Tier == "thorough" {
+		if path, err := exec.LookPath("lean"); err == nil {
+			ctx, cancel := context.WithTimeout(context.Background(), 5*time.Minute)
+			defer cancel()
+			out, err := exec.CommandContext(ctx, path, file).CombinedOutput()
+			if err == nil && !strings.Contains(string(out), "error") && !strings.Contains(string(out), "sorry") {
+				c.Tables = append(c.Tables, "list laws B1-B3 (DESIGN Appendix B): machine-checked in this run by Lean 4 (lean/Interleave.lean, no sorry)")
+				return
+			}
+			c.addOb("lean/Interleave/list-laws", "table", file, false, "Lean rejected lean/Interleave.lean: "+truncate(string(out), 400))
+			return
+		}
+	}
+	c.assume("list laws B1-B3 of separated lists (DESIGN Appendix B): proved in lean/Interleave.lean (Lean 4, checked in the thorough tier); the quick tier relies on that file")
 }
